@@ -7,6 +7,7 @@ package certmagic
 // -overlay` and are guarded by the build tag `verif`.
 
 import (
+	"net"
 	"bufio"
 	"encoding/json"
 	"fmt"
@@ -134,4 +135,66 @@ func hexRunes(s string) string {
 		sb.WriteString(strconv.FormatInt(int64(r), 16))
 	}
 	return sb.String()
+}
+
+// ---- reference implementations written here, NOT the package's: an expectation computed by
+// the code under test cannot disagree with it
+
+// host part of "host:port" / "[v6]:port"; anything net.SplitHostPort does not take apart is
+// returned whole (a bracketed address without a port keeps its brackets)
+func vHostOnlyRef(hostport string) string {
+	if h, _, err := net.SplitHostPort(hostport); err == nil {
+		return h
+	}
+	return hostport
+}
+
+func vNormNameRef(s string) string { return strings.ToLower(strings.TrimSpace(s)) }
+
+// the name a TLS-ALPN challenge for an IP identifier is looked up by (RFC 8738: the
+// reverse-mapping name the CA sends as SNI); the identifier itself in every other case
+func vChallengeKeyRef(typ, identType, value string) string {
+	if typ != "tls-alpn-01" || identType != "ip" {
+		return value
+	}
+	if strings.Contains(value, ".") && !strings.Contains(value, ":") {
+		p := strings.Split(value, ".")
+		if len(p) != 4 {
+			return value
+		}
+		return p[3] + "." + p[2] + "." + p[1] + "." + p[0] + ".in-addr.arpa"
+	}
+	// IPv6: expand to 32 nibbles
+	halves := strings.Split(value, "::")
+	var groups []string
+	if len(halves) == 2 {
+		l, r := []string{}, []string{}
+		if halves[0] != "" {
+			l = strings.Split(halves[0], ":")
+		}
+		if halves[1] != "" {
+			r = strings.Split(halves[1], ":")
+		}
+		groups = append(groups, l...)
+		for i := 0; i < 8-len(l)-len(r); i++ {
+			groups = append(groups, "0")
+		}
+		groups = append(groups, r...)
+	} else {
+		groups = strings.Split(value, ":")
+	}
+	if len(groups) != 8 {
+		return value
+	}
+	var nibbles []string
+	for _, g := range groups {
+		g = strings.Repeat("0", 4-len(g)) + strings.ToLower(g)
+		for _, c := range g {
+			nibbles = append(nibbles, string(c))
+		}
+	}
+	for i, j := 0, len(nibbles)-1; i < j; i, j = i+1, j-1 {
+		nibbles[i], nibbles[j] = nibbles[j], nibbles[i]
+	}
+	return strings.Join(nibbles, ".") + ".ip6.arpa"
 }
